@@ -3,3 +3,6 @@ pub mod c14;
 pub mod c05;
 pub mod c03;
 pub mod c04;
+pub mod c15;
+pub mod c13;
+pub mod c17;
